@@ -125,6 +125,50 @@ def run(src, tier, seed):
     if c.unknown:
         raise AnalysisBroken('performNaive: the keep/drop decision depends on conditions the model does not know: %s' % sorted(c.unknown))
 
+    # ---- R3b no shortcut around the loop other than "nothing to minimise"
+    r = res.rule('no-shortcut-around-the-trials', 'Minimize::perform hands the candidates to performNaive on every path except the one that has established that there is no candidate '
+                 '(in named mode a single named term can still be redundant against the unnamed background)', floor=1)
+    pf = fx.func('opensmt::UnsatCoreBuilder::Minimize::perform')
+
+    class Short(Client):
+        def __init__(self):
+            self.exits = set()
+
+        def on_cond(self, atom, s, branch):
+            a = see_through(atom)
+            if isinstance(a, dict) and a.get('k') == 'bin' and a.get('op') in ('==', '<=', '<', '!=', '>', '>=') and is_size(a['l'], 'this.targetTerms', set()):
+                k_ = see_through(a['r']).get('v')
+                if isinstance(k_, int):
+                    truth = {'==': lambda n: n == k_, '<=': lambda n: n <= k_, '<': lambda n: n < k_, '!=': lambda n: n != k_, '>': lambda n: n > k_, '>=': lambda n: n >= k_}[a['op']]
+                    sizes = frozenset(n for n in s[1] if truth(n) == branch)
+                    return (s[0], sizes) if sizes else None
+            if isinstance(a, dict) and a.get('k') == 'call' and mname(a) == 'empty' and path_of(a.get('recv')) == 'this.targetTerms':
+                sizes = frozenset(n for n in s[1] if (n == 0) == branch)
+                return (s[0], sizes) if sizes else None
+            return s
+
+        def on_call(self, n, s):
+            if is_call(n, 'performNaive'):
+                return ((True, s[1]),)
+            return (s,)
+
+        def on_exit(self, kind, node, s):
+            if kind == 'return':
+                self.exits.add(s)
+    c3 = Short()
+    eng = Engine(pf, c3)
+    eng.run([(False, frozenset(range(0, 6)))])
+    if eng.broken:
+        raise AnalysisBroken('Minimize::perform: %s' % eng.broken)
+    skipped = sorted({n for called, sizes in c3.exits if not called for n in sizes})
+    if not c3.exits:
+        raise AnalysisBroken('Minimize::perform: no returning path')
+    if any(n > 0 for n in skipped):
+        res.bad(r, 'trials-skipped', fx.loc(pf), 'Minimize::perform can return without running the trials when there are %s candidate(s): a candidate that is redundant against the background '
+                '(or the other candidates) is reported in the "minimal" core' % [n for n in skipped if n > 0])
+    else:
+        res.ok(r, 'perform: performNaive on every path with at least one candidate')
+
     # ---- R4 background
     r = res.rule('background-asserted-first', 'every background term is asserted at the base level before the first trial; in named mode the background is every current '
                  'assertion that has no name', floor=4)
